@@ -35,7 +35,7 @@ def field_cols(k, f):
         t = "UCH"
     else:
         t = "%s:%d" % (ty, f["n"])
-    return ["f%d" % k, f["part"], t, "", "", ""]
+    return [f.get("nm") or "f%d" % k, f["part"], t, "", "", ""]
 
 
 def render_lines(d):
@@ -84,13 +84,16 @@ def render_op(d, op):
         return "R %d %s" % (op[1], hx(op[2]) if op[2] else "-")
     if o == "D":
         return "D"
+    if o == "Q":
+        return "Q %s %d" % (op[1], op[2])
     raise ValueError(op)
 
 
 def render_cases(src_files, out_txt):
     n = nops = 0
-    global NONTRIVIAL
+    global NONTRIVIAL, SELECTIONS
     NONTRIVIAL = 0
+    SELECTIONS = 0
     with open(out_txt, "w") as out:
         for sf in src_files:
             with open(sf) as f:
@@ -107,8 +110,10 @@ def render_cases(src_files, out_txt):
                     for op in c["ops"]:
                         out.write(render_op(c["def"], op) + "\n")
                         nops += 1
-                        if op[0] not in ("M", "T"):
+                        if op[0] not in ("M", "T"):  # selections (Q) count: each is one real decodeLastData call
                             NONTRIVIAL += 1
+                        if op[0] == "Q":
+                            SELECTIONS += 1
                     out.write("E\n")
     return n, nops
 
@@ -219,7 +224,7 @@ def run(ctx):
                 "(message selection and clock steps are not counted)",
         "samples": [{"lines": render_lines(r["c"]["def"]), "ops": [render_op(r["c"]["def"], op) for op in r["c"]["ops"]][:10],
                      "events": r["ev"][:10]} for r in first],
-        "cases": ncase, "operations": nops, "families": shards, "records_rejected": nbad,
+        "cases": ncase, "operations": nops, "field_selections": SELECTIONS, "families": shards, "records_rejected": nbad,
         "mc_states": mc["distinct"], "mc_transitions": mc["generated"], "mc_violated": mc["violated"],
         "seeded_model_defects_rejected": {str(k): v for k, v in vac.items()}, "s_conforms": not ctx.drift,
     }
